@@ -1,5 +1,6 @@
 import MgpuProofs.C03VConfBfe
 import MgpuProofs.C03VConfExec
+import MgpuProofs.C03VConfLoops
 /-! # C03 (vector half) — conformance of the TRANSLATED integer lane bodies of both vector ALUs to the ISA specification
 
 The scalar half (`Props/C03S.lean`) proves, per opcode and for all inputs, that the Go handler regenerated into Lean
@@ -26,6 +27,13 @@ prove that each Go idiom equals the ISA function.  The loop around the body (EXE
 accumulator, write-back) is property C06's `handler_is_vexec`; operand fetch / write-back is C07 and the differential
 tie.  `vector_integer_conformance_coverage` compares the proved rows with the REGENERATED opcode switches and lists
 what remains covered by the differential tie only.
+
+Third pass: the bodies `translate/lanedeep.go` translates since — the inner bit loops of `v_bfrev_b32` (both ALUs) and
+`v_ffbh_u32` as `List.foldl`, the `sort.Ints` of `v_med3_i32` as `C06.Go.sortInts3`, CDNA3 `v_cmp_f_u64` as a handler
+without lane loop writing the constant mask 0 — are proved conformant for all operands too (loop invariants and the sort
+lemma in `MgpuProofs/C03VConfLoops.lean`), and the lane `v_readfirstlane_b32` reads is proved to be the specification's
+(`readfirstlane_lane_conforms`, `readfirstlane_value_conforms`).  No float handler qualifies for a bit-level proof: every
+float-class body (also compares, class tests and the ABS/NEG modifier helpers) goes through `Float32.ofBits` / `Float.ofBits`.
 
 Findings of this proof round (see also `known_findings.d/C03V.json`, notes/C03V.md):
 * `v_lshl_add_u64` (both ALUs) shifted by `S1[5:0]`, the ISA by `S1[2:0]`: REPAIRED (round R4) — `*_runVLSHLADDU64_conforms`
@@ -757,6 +765,94 @@ theorem cdna3_runVCmpGeU64_conforms (n : String) : Conforms lh_cdna3_runVCmpGeU6
 theorem cdna3_runVCmpTruU64_conforms (n : String) : Conforms lh_cdna3_runVCmpTruU64 (cmpOf n 64 .int (fun a b => cmpU 7 (w64 a) (w64 b))) :=
   conf_cmp64 _ _ _ (by conf_start [lh_cdna3_runVCmpTruU64, raw_cdna3_runVCmpTruU64]; conf_mask [cmpI_lt, cmpI_eq, cmpI_le, cmpI_gt, cmpI_ne, cmpI_ge, cmpU_f, cmpU_lt, cmpU_eq, cmpU_le, cmpU_gt, cmpU_ne, cmpU_ge, cmpU_t, ult64_zext, ule64_zext, beq64_zext, bne64_zext, sw16_and_mask])
 
+/-! ## handlers translated since `translate/lanedeep.go` (inner bit loops as `List.foldl`, `sort.Ints` of three elements
+as `C06.Go.sortInts3`, a handler without lane loop that writes the constant mask 0); loop / sort lemmas in
+`MgpuProofs/C03VConfLoops.lean` -/
+
+/-- `gcn3` `runBFREVB32` (aluvop1.go:282): the 32-iteration loop `bit = ((src & 1<<(31-j)) >> (31-j)) << j; dst |= bit` IS
+    the ISA's bit reversal, for every source pattern -/
+theorem gcn3_runBFREVB32_conforms (n : String) : Conforms lh_gcn3_runBFREVB32 (un32 n bfrev) :=
+  conf_un32 _ _ (by
+    intro u r _ _
+    simp only [lh_gcn3_runBFREVB32, raw_gcn3_runBFREVB32, gcn3_bfrev_fold, Option.map_some, sw32_sw64, and_self])
+
+/-- `cdna3` `runBFREVB32` (cdna3/vop1.go:359): the loop `if src & (1<<j) != 0 { dst |= 1 << (31-j) }` IS the bit reversal -/
+theorem cdna3_runBFREVB32_conforms (n : String) : Conforms lh_cdna3_runBFREVB32 (un32 n bfrev) :=
+  conf_un32 _ _ (by
+    intro u r _ _
+    simp only [lh_cdna3_runBFREVB32, raw_cdna3_runBFREVB32, cdna3_bfrev_fold, Option.map_some, sw32_sw64, and_self])
+
+/-- `cdna3` `runVFFBHU32` (cdna3/vop1.go:377): the downward scan with `break` returns `31 - ⌊log2 src⌋`, and −1 for 0 -/
+theorem cdna3_runVFFBHU32_conforms (n : String) : Conforms lh_cdna3_runVFFBHU32 (un32 n ffbh) :=
+  conf_un32 _ _ (by
+    intro u r _ _
+    simp only [lh_cdna3_runVFFBHU32, raw_cdna3_runVFFBHU32]
+    by_cases h0 : (r.src0.setWidth 32 == 0#32) = true
+    · have e : r.src0.setWidth 32 = 0#32 := by simpa using h0
+      simp only [h0, if_true, Option.map_some]
+      rw [e]
+      refine ⟨?_, ?_⟩
+      · first | rfl | trivial
+      · decide
+    · have hne : r.src0.setWidth 32 ≠ 0#32 := by simpa using h0
+      simp only [h0, if_false, Option.map_some, sw32_sw64, Bool.false_eq_true]
+      refine ⟨?_, ?_⟩
+      · first | rfl | trivial
+      · exact congrArg some (ffbh_fold _ hne))
+
+/-- `gcn3` `runVMED3I32` (aluvop3a.go:794): the middle element of `sort.Ints` of the three sign-extended operands IS
+    `max(min(a,b), min(max(a,b),c))` on signed 32-bit values -/
+theorem gcn3_runVMED3I32_conforms (n : String) : Conforms lh_gcn3_runVMED3I32 (tri32 n med3I) :=
+  conf_tri32 _ _ (by conf_start_s [lh_gcn3_runVMED3I32, raw_gcn3_runVMED3I32]; conf_fin [med3I_sort])
+
+/-- `cdna3` `runVMED3I32` (cdna3/vop3a.go:988) -/
+theorem cdna3_runVMED3I32_conforms (n : String) : Conforms lh_cdna3_runVMED3I32 (tri32 n med3I) :=
+  conf_tri32 _ _ (by conf_start [lh_cdna3_runVMED3I32, raw_cdna3_runVMED3I32]; conf_fin [med3I_sort])
+
+/-- `cdna3` `runVCmpFU64` (no lane loop: `state.SetVCC(0)`): every lane's bit of the constant it writes is the ISA's
+    `v_cmp_f_u64` result (false) for every operand pair -/
+theorem cdna3_runVCmpFU64_conforms (n : String) :
+    Conforms lh_cdna3_runVCmpFU64_const (cmpOf n 64 .int (fun a b => cmpU 0 (w64 a) (w64 b))) :=
+  conf_cmp64 _ _ _ (by
+    intro u r hi _
+    refine ⟨rfl, fun h0 => ?_⟩
+    show setBit r.acc r.i ((0#64).getLsbD r.i) = _
+    simp [cmpU_f])
+
+/-- **the lane view `constLane` is what the handler does**: `cdna3.ALU.runVCmpFU64` never panics and hands 0 to `SetVCC`
+    (C06's `noLaneRun` of the regenerated record), and the lane view started from the accumulator 0 stays 0 at every
+    lane — so folding it over any set of active lanes yields exactly that constant -/
+theorem cdna3_runVCmpFU64_lane_view (u : Uni) (vcc : BitVec 64) (r : RawIn) (h : r.acc = 0#64) :
+    C06.noLaneRun nl_cdna3_runVCmpFU64 u vcc = some 0#64 ∧ (lh_cdna3_runVCmpFU64_const.raw u r).acc = 0#64 := by
+  have hok : nl_cdna3_runVCmpFU64.ok u = true := rfl
+  refine ⟨?_, ?_⟩
+  · simp only [C06.noLaneRun, hok, if_true, nl_cdna3_runVCmpFU64_facts.2.2, Option.getD_some]
+  · show setBit r.acc r.i ((0#64).getLsbD r.i) = 0#64
+    rw [h]
+    apply BitVec.eq_of_getLsbD_eq
+    intro j hj
+    simp [C06.setBit]
+
+example : C06.noLaneRun nl_cdna3_runVCmpFU64 C06.Uni.zero 0xFFFF#64 = some 0#64 := by decide +kernel
+
+/-- **`v_readfirstlane_b32` reads the lane the ISA names**: the lane both ALUs' scan loop
+    (`for i := 0; i < 64; i++ { if exec&(1<<i) == 0 { continue }; laneid = i; break }`, hand-transcribed by C06 as
+    `C06.rflScan`, hash-pinned) selects is `C03V.firstLane` of the specification — the lowest set EXEC bit, lane 0
+    when EXEC = 0 — for every EXEC value -/
+theorem readfirstlane_lane_conforms (exec : BitVec 64) : (C06.rflScan exec 64).1 = C03V.firstLane exec.toNat :=
+  rflScan_firstLane exec
+
+example : (C06.rflScan 0x28#64 64).1 = 3 ∧ C03V.firstLane 0x28 = 3 ∧ (C06.rflScan 0#64 64).1 = 0 := by decide +kernel
+
+/-- … hence the value both ALUs broadcast (`src0 := state.ReadOperand(inst.Src0, laneid)`, C06's `goReadFirstLane`) is
+    SRC0 read in the specification's lane (`execVALU`: `st.src e.src0 (firstLane st.exec) …`) -/
+theorem readfirstlane_value_conforms (src0 : C06.Opnd) (exec : BitVec 64) (vgpr : Nat → Nat → Nat) :
+    C06.goReadFirstLane src0 exec vgpr = C06.readOpnd src0 (vgpr (C03V.firstLane exec.toNat)) := by
+  unfold C06.goReadFirstLane
+  rw [rflScan_firstLane]
+
+example : C06.goReadFirstLane (.vgpr 0 1) 0x28#64 (fun l r => if r = 0 then 100 + l else 0) = 103#64 := by decide +kernel
+
 /-- GCN3 `v_lshrrev_b32`, FULL statement over all 64-bit SRC1 patterns -/
 def gcn3_runVLSHRREVB32_full : Prop := Conforms lh_gcn3_runVLSHRREVB32 (bin32 "v_lshrrev_b32" lshrrev)
 
@@ -793,6 +889,30 @@ example : (raw_gcn3_runVBFEI32 C06.Uni.zero ⟨0, 0xF00#64, 8#64, 4#64, 0#64, 0#
 /-- `v_addc_co_u32` (VOP3b, carry-in from bit 3 of the SRC2 pair) 0xFFFFFFFF + 0 + 1 in lane 3 -/
 example : raw_cdna3_runVADDCU32VOP3b C06.Uni.zero ⟨3, 0xFFFFFFFF#64, 0#64, 0x8#64, 0#64, 0#64, 0#64⟩ = ⟨some 0#64, 0x8#64⟩ := by
   decide
+
+/-- `v_bfrev_b32`: 1 ↦ 0x80000000 by the GCN3 loop, 0x0000FFFF ↦ 0xFFFF0000 by the CDNA3 loop (the negative inline
+    constant −2 = 0xFFFF…FE ↦ 0x7FFFFFFF: the upper half does not leak), as the ISA function says -/
+example : (raw_gcn3_runBFREVB32 C06.Uni.zero ⟨0, 1#64, 0#64, 0#64, 0#64, 0#64, 0#64⟩).dst = some 0x80000000#64 ∧
+    (raw_cdna3_runBFREVB32 C06.Uni.zero ⟨0, 0xFFFF#64, 0#64, 0#64, 0#64, 0#64, 0#64⟩).dst = some 0xFFFF0000#64 ∧
+    (raw_cdna3_runBFREVB32 C06.Uni.zero ⟨0, 0xFFFFFFFFFFFFFFFE#64, 0#64, 0#64, 0#64, 0#64, 0#64⟩).dst = some 0x7FFFFFFF#64 ∧
+    bfrev 1#32 = 0x80000000#32 ∧ bfrev 0xFFFF#32 = 0xFFFF0000#32 := by decide +kernel
+/-- `v_ffbh_u32`: 1 ↦ 31, 0x00010000 ↦ 15, 0x80000000 ↦ 0, 0 ↦ −1 -/
+example : (raw_cdna3_runVFFBHU32 C06.Uni.zero ⟨0, 1#64, 0#64, 0#64, 0#64, 0#64, 0#64⟩).dst = some 31#64 ∧
+    (raw_cdna3_runVFFBHU32 C06.Uni.zero ⟨0, 0x10000#64, 0#64, 0#64, 0#64, 0#64, 0#64⟩).dst = some 15#64 ∧
+    (raw_cdna3_runVFFBHU32 C06.Uni.zero ⟨0, 0x80000000#64, 0#64, 0#64, 0#64, 0#64, 0#64⟩).dst = some 0#64 ∧
+    (raw_cdna3_runVFFBHU32 C06.Uni.zero ⟨0, 0#64, 0#64, 0#64, 0#64, 0#64, 0#64⟩).dst = some 0xFFFFFFFF#64 ∧
+    ffbh 0x10000#32 = 15#32 ∧ ffbh 0#32 = 0xFFFFFFFF#32 := by decide +kernel
+/-- `v_med3_i32` of −1 (negative inline constant, all 64 bits set), 5 and INT_MIN: the SIGNED median −1 on both ALUs
+    (the unsigned median would be 0x80000000) -/
+example : (raw_gcn3_runVMED3I32 C06.Uni.zero ⟨0, 0xFFFFFFFFFFFFFFFF#64, 5#64, 0x80000000#64, 0#64, 0#64, 0#64⟩).dst.map (tr 32)
+      = some 0xFFFFFFFF ∧
+    (raw_cdna3_runVMED3I32 C06.Uni.zero ⟨0, 0xFFFFFFFFFFFFFFFF#64, 5#64, 0x80000000#64, 0#64, 0#64, 0#64⟩).dst.map (tr 32)
+      = some 0xFFFFFFFF ∧
+    med3I 0xFFFFFFFF#32 5#32 0x80000000#32 = 0xFFFFFFFF#32 ∧ med3U 0xFFFFFFFF#32 5#32 0x80000000#32 = 0x80000000#32 := by
+  decide +kernel
+/-- CDNA3 `v_cmp_f_u64` (constant mask 0): lane 9's bit stays clear whatever the operands -/
+example : (lh_cdna3_runVCmpFU64_const.raw C06.Uni.zero ⟨9, 7#64, 7#64, 0#64, 0#64, 0#64, 0x1FF#64⟩).acc = 0x1FF#64 ∧
+    lh_cdna3_runVCmpFU64_const.name = "runVCmpFU64" := by decide +kernel
 
 /-! ## What the comparison is with: `execVALU`'s lane semantics, and property C06's lane-local body -/
 
@@ -856,6 +976,12 @@ example (u : Uni) (r : RawIn) (hi : r.i < 64) :
     (raw_gcn3_runVBFEI32 u r).dst.map (tr 32) = (raw_cdna3_runVBFEI32 u r).dst.map (tr 32) :=
   (alus_agree_of_conforms (gcn3_runVBFEI32_conforms "") (cdna3_runVBFEI32_conforms "") rfl u u r hi rfl rfl).1
 
+/-- `v_bfrev_b32`: the two ALUs use different loops (shift the selected bit down and up again / test-and-set); both
+    return the same destination value on every input -/
+example (u : Uni) (r : RawIn) (hi : r.i < 64) :
+    (raw_gcn3_runBFREVB32 u r).dst.map (tr 32) = (raw_cdna3_runBFREVB32 u r).dst.map (tr 32) :=
+  (alus_agree_of_conforms (gcn3_runBFREVB32_conforms "") (cdna3_runBFREVB32_conforms "") rfl u u r hi rfl rfl).1
+
 /-! ## Coverage: the proved rows against the regenerated opcode switches -/
 
 /-- every (architecture, format, opcode, handler) entry with its conformance PROOF: an entry exists only if the theorem
@@ -864,6 +990,8 @@ example (u : Uni) (r : RawIn) (hi : r.i < 64) :
 def provedRows : List ProvedRow := [
   ⟨true, .vop1, 1, .all, lh_cdna3_runVMOVB32, un32 _ id, rfl, rfl, cdna3_runVMOVB32_conforms _⟩,
   ⟨true, .vop1, 43, .all, lh_cdna3_runVNOTB32, un32 _ (~~~ ·), rfl, rfl, cdna3_runVNOTB32_conforms _⟩,
+  ⟨true, .vop1, 44, .all, lh_cdna3_runBFREVB32, un32 _ bfrev, rfl, rfl, cdna3_runBFREVB32_conforms _⟩,
+  ⟨true, .vop1, 45, .all, lh_cdna3_runVFFBHU32, un32 _ ffbh, rfl, rfl, cdna3_runVFFBHU32_conforms _⟩,
   ⟨true, .vop1, 56, .all, lh_cdna3_runVMOVB64, movB64Op, rfl, rfl, cdna3_runVMOVB64_conforms⟩,
   ⟨true, .vop2, 0, .all, lh_cdna3_runVCNDMASKB32, cndmaskOp, rfl, rfl, cdna3_runVCNDMASKB32_conforms⟩,
   ⟨true, .vop2, 6, .all, lh_cdna3_runVMULI32I24, bin32 _ mulI24, rfl, rfl, cdna3_runVMULI32I24_conforms _⟩,
@@ -909,6 +1037,7 @@ def provedRows : List ProvedRow := [
   ⟨true, .vop3a, 466, .all, lh_cdna3_runVMIN3U32, tri32 _ min3U, rfl, rfl, cdna3_runVMIN3U32_conforms _⟩,
   ⟨true, .vop3a, 468, .all, lh_cdna3_runVMAX3I32, tri32 _ max3I, rfl, rfl, cdna3_runVMAX3I32_conforms _⟩,
   ⟨true, .vop3a, 469, .all, lh_cdna3_runVMAX3U32, tri32 _ max3U, rfl, rfl, cdna3_runVMAX3U32_conforms _⟩,
+  ⟨true, .vop3a, 471, .all, lh_cdna3_runVMED3I32, tri32 _ med3I, rfl, rfl, cdna3_runVMED3I32_conforms _⟩,
   ⟨true, .vop3a, 472, .all, lh_cdna3_runVMED3U32, tri32 _ med3U, rfl, rfl, cdna3_runVMED3U32_conforms _⟩,
   ⟨true, .vop3a, 499, .all, lh_cdna3_runVXADU32, tri32 _ xad, rfl, rfl, cdna3_runVXADU32_conforms _⟩,
   ⟨true, .vop3a, 509, .all, lh_cdna3_runVLSHLADDU32, tri32 _ lshlAdd, rfl, rfl, cdna3_runVLSHLADDU32_conforms _⟩,
@@ -939,6 +1068,7 @@ def provedRows : List ProvedRow := [
   ⟨true, .vopc, 204, .all, lh_cdna3_runVCmpGtU32, cmpOf _ 32 .int (fun a b => cmpU 4 (w32 a) (w32 b)), rfl, rfl, cdna3_runVCmpGtU32_conforms _⟩,
   ⟨true, .vopc, 205, .all, lh_cdna3_runVCmpNeU32, cmpOf _ 32 .int (fun a b => cmpU 5 (w32 a) (w32 b)), rfl, rfl, cdna3_runVCmpNeU32_conforms _⟩,
   ⟨true, .vopc, 206, .all, lh_cdna3_runVCmpGeU32, cmpOf _ 32 .int (fun a b => cmpU 6 (w32 a) (w32 b)), rfl, rfl, cdna3_runVCmpGeU32_conforms _⟩,
+  ⟨true, .vopc, 232, .all, lh_cdna3_runVCmpFU64_const, cmpOf _ 64 .int (fun a b => cmpU 0 (w64 a) (w64 b)), nl_cdna3_runVCmpFU64_facts.1, rfl, cdna3_runVCmpFU64_conforms _⟩,
   ⟨true, .vopc, 233, .all, lh_cdna3_runVCmpLtU64, cmpOf _ 64 .int (fun a b => cmpU 1 (w64 a) (w64 b)), rfl, rfl, cdna3_runVCmpLtU64_conforms _⟩,
   ⟨true, .vopc, 234, .all, lh_cdna3_runVCmpEqU64, cmpOf _ 64 .int (fun a b => cmpU 2 (w64 a) (w64 b)), rfl, rfl, cdna3_runVCmpEqU64_conforms _⟩,
   ⟨true, .vopc, 235, .all, lh_cdna3_runVCmpLeU64, cmpOf _ 64 .int (fun a b => cmpU 3 (w64 a) (w64 b)), rfl, rfl, cdna3_runVCmpLeU64_conforms _⟩,
@@ -948,6 +1078,7 @@ def provedRows : List ProvedRow := [
   ⟨true, .vopc, 239, .all, lh_cdna3_runVCmpTruU64, cmpOf _ 64 .int (fun a b => cmpU 7 (w64 a) (w64 b)), rfl, rfl, cdna3_runVCmpTruU64_conforms _⟩,
   ⟨false, .vop1, 1, .all, lh_gcn3_runVMOVB32, un32 _ id, rfl, rfl, gcn3_runVMOVB32_conforms _⟩,
   ⟨false, .vop1, 43, .all, lh_gcn3_runVNOTB32, un32 _ (~~~ ·), rfl, rfl, gcn3_runVNOTB32_conforms _⟩,
+  ⟨false, .vop1, 44, .all, lh_gcn3_runBFREVB32, un32 _ bfrev, rfl, rfl, gcn3_runBFREVB32_conforms _⟩,
   ⟨false, .vop2, 0, .all, lh_gcn3_runVCNDMASKB32, cndmaskOp, rfl, rfl, gcn3_runVCNDMASKB32_conforms⟩,
   ⟨false, .vop2, 6, .all, lh_gcn3_runVMULI32I24, bin32 _ mulI24, rfl, rfl, gcn3_runVMULI32I24_conforms _⟩,
   ⟨false, .vop2, 8, .all, lh_gcn3_runVMULU32U24, bin32 _ mulU24, rfl, rfl, gcn3_runVMULU32U24_conforms _⟩,
@@ -988,6 +1119,7 @@ def provedRows : List ProvedRow := [
   ⟨false, .vop3a, 466, .all, lh_gcn3_runVMIN3U32, tri32 _ min3U, rfl, rfl, gcn3_runVMIN3U32_conforms _⟩,
   ⟨false, .vop3a, 468, .all, lh_gcn3_runVMAX3I32, tri32 _ max3I, rfl, rfl, gcn3_runVMAX3I32_conforms _⟩,
   ⟨false, .vop3a, 469, .all, lh_gcn3_runVMAX3U32, tri32 _ max3U, rfl, rfl, gcn3_runVMAX3U32_conforms _⟩,
+  ⟨false, .vop3a, 471, .all, lh_gcn3_runVMED3I32, tri32 _ med3I, rfl, rfl, gcn3_runVMED3I32_conforms _⟩,
   ⟨false, .vop3a, 472, .all, lh_gcn3_runVMED3U32, tri32 _ med3U, rfl, rfl, gcn3_runVMED3U32_conforms _⟩,
   ⟨false, .vop3a, 511, .all, lh_gcn3_runVADD3U32, tri32 _ add3, rfl, rfl, gcn3_runVADD3U32_conforms _⟩,
   ⟨false, .vop3a, 520, .all, lh_gcn3_runVLSHLADDU64, lshlAddU64Op, rfl, rfl, gcn3_runVLSHLADDU64_conforms⟩,
@@ -1073,8 +1205,6 @@ def differentialOnly : List (Row × Why) := [
   (⟨"cdna3", "vop1", 36, "runVRSQF32"⟩, .float),
   (⟨"cdna3", "vop1", 37, "runVRCPF64"⟩, .float),
   (⟨"cdna3", "vop1", 39, "runVSQRTF32"⟩, .float),
-  (⟨"cdna3", "vop1", 44, "runBFREVB32"⟩, .untranslated),
-  (⟨"cdna3", "vop1", 45, "runVFFBHU32"⟩, .untranslated),
   (⟨"cdna3", "vop1", 76, "runLogLegacyF32"⟩, .float),
   (⟨"cdna3", "vop2", 1, "runVADDF32"⟩, .float),
   (⟨"cdna3", "vop2", 2, "runVSUBF32"⟩, .float),
@@ -1099,7 +1229,6 @@ def differentialOnly : List (Row × Why) := [
   (⟨"cdna3", "vop3a", 464, "runVMIN3F32"⟩, .float),
   (⟨"cdna3", "vop3a", 467, "runVMAX3F32"⟩, .float),
   (⟨"cdna3", "vop3a", 470, "runVMED3F32"⟩, .float),
-  (⟨"cdna3", "vop3a", 471, "runVMED3I32"⟩, .untranslated),
   (⟨"cdna3", "vop3a", 478, "runVDIVFIXUPF32"⟩, .float),
   (⟨"cdna3", "vop3a", 479, "runVDIVFIXUPF64"⟩, .float),
   (⟨"cdna3", "vop3a", 482, "runVDIVFMASF32"⟩, .float),
@@ -1118,7 +1247,6 @@ def differentialOnly : List (Row × Why) := [
   (⟨"cdna3", "vopc", 68, "runVCmpGtF32"⟩, .float),
   (⟨"cdna3", "vopc", 69, "runVCmpLgF32"⟩, .float),
   (⟨"cdna3", "vopc", 70, "runVCmpGeF32"⟩, .float),
-  (⟨"cdna3", "vopc", 232, "runVCmpFU64"⟩, .untranslated),
   (⟨"gcn3", "ds", 13, "runDSWRITEB32"⟩, .memory),
   (⟨"gcn3", "ds", 14, "runDSWRITE2B32"⟩, .memory),
   (⟨"gcn3", "ds", 30, "runDSWRITEB8"⟩, .memory),
@@ -1165,7 +1293,6 @@ def differentialOnly : List (Row × Why) := [
   (⟨"gcn3", "vop1", 36, "runVRSQF32"⟩, .float),
   (⟨"gcn3", "vop1", 37, "runVRCPF64"⟩, .float),
   (⟨"gcn3", "vop1", 39, "runVSQRTF32"⟩, .float),
-  (⟨"gcn3", "vop1", 44, "runBFREVB32"⟩, .untranslated),
   (⟨"gcn3", "vop1", 76, "runLogLegacyF32"⟩, .floatBits),
   (⟨"gcn3", "vop2", 1, "runVADDF32"⟩, .float),
   (⟨"gcn3", "vop2", 2, "runVSUBF32"⟩, .float),
@@ -1188,7 +1315,6 @@ def differentialOnly : List (Row × Why) := [
   (⟨"gcn3", "vop3a", 464, "runVMIN3F32"⟩, .float),
   (⟨"gcn3", "vop3a", 467, "runVMAX3F32"⟩, .float),
   (⟨"gcn3", "vop3a", 470, "runVMED3F32"⟩, .float),
-  (⟨"gcn3", "vop3a", 471, "runVMED3I32"⟩, .untranslated),
   (⟨"gcn3", "vop3a", 479, "runVDIVFIXUPF64"⟩, .float),
   (⟨"gcn3", "vop3a", 483, "runVDIVFMASF64"⟩, .float),
   (⟨"gcn3", "vop3a", 640, "runVADDF64"⟩, .float),
@@ -1218,17 +1344,20 @@ def differentialKeys : List Row := differentialOnly.map (·.1)
 
 /-- **Coverage summary.** The vector / memory entries of the regenerated opcode switches of both ALUs
     (VOP1/VOP2/VOPC/VOP3a/VOP3b/SMEM/DS/FLAT, in table order) are exactly partitioned into the entries covered by a
-    conformance PROOF (`provedRows`: 159 — 158 for all operand values, GCN3 `v_lshrrev_b32` on VGPR SRC1;
-    `v_lshl_add_u64` ×2 for every shift count since the repair of the shift mask) and the entries listed in `differentialOnly` with their reason (182:
-    float data path 113, float handlers in integer clothing 2, memory 56, untranslated handlers 8, no ISA table entry
-    3).  A new handler, a moved opcode, or a handler that stops translating changes the regenerated tables and breaks
-    this theorem (the `#eval` above names the entry). -/
+    conformance PROOF (`provedRows`: 165 — 164 for all operand values, GCN3 `v_lshrrev_b32` on VGPR SRC1;
+    `v_lshl_add_u64` ×2 for every shift count since the repair of the shift mask; since `translate/lanedeep.go` also
+    `v_bfrev_b32` ×2 and `v_ffbh_u32` (inner bit loops), `v_med3_i32` ×2 (`sort.Ints`) and CDNA3 `v_cmp_f_u64` (constant
+    mask)) and the entries listed in `differentialOnly` with their reason (176: float data path 113, float handlers in
+    integer clothing 2, memory 56, cross-lane `v_readfirstlane_b32` 2 — lane selection proved, `readfirstlane_lane_conforms`
+    —, no ISA table entry 3).  A new handler, a moved opcode, or a handler that stops translating changes the
+    regenerated tables and breaks this theorem (the `#eval` above names the entry). -/
 theorem vector_integer_conformance_coverage :
     interleaves vectorRows provedKeys differentialKeys = true ∧
-    provedKeys.length = 159 ∧ (provedRows.filter fun p => p.dom == .all).length = 158 ∧
-    differentialKeys.length = 182 ∧
+    provedKeys.length = 165 ∧ (provedRows.filter fun p => p.dom == .all).length = 164 ∧
+    differentialKeys.length = 176 ∧
     (differentialOnly.filter fun d => d.2 == .float).length = 113 ∧
-    (differentialOnly.filter fun d => d.2 == .memory).length = 56 := by decide +kernel
+    (differentialOnly.filter fun d => d.2 == .memory).length = 56 ∧
+    (differentialOnly.filter fun d => d.2 == .untranslated).length = 2 := by decide +kernel
 
 /-- every proved row really carries a proof about the ISA table entry of its opcode (by construction of `ProvedRow`;
     stated so that the claim is a theorem, not a comment) -/
